@@ -124,6 +124,51 @@ partial def predOfJ (j : J) : Except String (List Cell → Bool) := do
   | [.str "not", p] => do let p ← predOfJ p; pure fun r => !p r
   | _ => throw "bad predicate"
 
+/-- the same predicates as python SOURCE evaluated on the raw cells (string callbacks): `x > q` and `len(x)`
+raise TypeError on cells of the wrong type, `and` / `or` short-circuit -/
+partial def predSrcOfJ (j : J) : Except String (List Cell → Except String Bool) := do
+  match ← j.toList with
+  | [.str "true"] => pure fun _ => pure true
+  | [.str "numgt", i, k] => do
+    let i ← i.toNat; let k ← k.toRat
+    pure fun r => match r.getD i .missing with
+      | .int n => pure (decide (k < (n : Rat)))
+      | .float q => pure (decide (k < q))
+      | .bool b => pure (decide (k < (if b then 1 else 0)))
+      | _ => throw "TypeError"
+  | [.str "eq", i, c] => do
+    let i ← i.toNat; let c ← cellOfJ c
+    pure fun r => pure ((r.getD i .missing).key = c.key)
+  | [.str "ismissing", i] => do
+    let i ← i.toNat
+    pure fun r => pure (r.getD i (.int 0) = .missing)
+  | [.str "strlen_gt", i, n] => do
+    let i ← i.toNat; let n ← n.toNat
+    pure fun r => match r.getD i .missing with | .str s => pure (decide (n < s.length)) | _ => throw "TypeError"
+  | [.str "and", p, q] => do
+    let p ← predSrcOfJ p; let q ← predSrcOfJ q
+    pure fun r => do if ← p r then q r else pure false
+  | [.str "or", p, q] => do
+    let p ← predSrcOfJ p; let q ← predSrcOfJ q
+    pure fun r => do if ← p r then pure true else q r
+  | [.str "not", p] => do let p ← predSrcOfJ p; pure fun r => do pure (!(← p r))
+  | _ => throw "bad predicate"
+
+/-- a callback for `filtered` / `count` / `get_row_indices`: a (total) python callable, or python source; the
+source is first run over all rows of `self[:, columns]` (any exception aborts the call) -/
+def callbackOfJ (t : Table) (j : J) : Except String (Except String (List Cell → Bool)) := do
+  let total ← predOfJ (← j.get "pred")
+  let isSrc := match j.get? "cb" with | some (.str "string") => true | _ => false
+  if !isSrc then return pure total
+  let src ← predSrcOfJ (← j.get "pred")
+  let names ← strsOfJ (← j.get "columns")
+  match t.idxsOf (t.subNames names) with
+  | .error _ => return pure total          -- the KeyError is raised by the operation itself
+  | .ok sel =>
+    match (rowsOf dfl (selectCols sel t.cols)).mapM src with
+    | .error e => return throw e
+    | .ok _ => return pure fun r => match src r with | .ok b => b | .error _ => false
+
 /-- function language for `with_new_column` callbacks -/
 def fnSum (r : List Cell) : Cell :=
   let anyFloat := r.any fun c => match c with | .float _ => true | _ => false
@@ -180,33 +225,34 @@ def handle (cmd : String) (j : J) : Except String J :=
     match ← (← j.get "op").toStr with
     | "inner_join" => do
       let u ← tableOfJ (← j.get "u")
-      pure (resJ (t.innerJoinCur u (← strsOfJ (← j.get "ks")) (← strsOfJ (← j.get "ko"))))
+      pure (resJ (t.innerJoin u (← strsOfJ (← j.get "ks")) (← strsOfJ (← j.get "ko"))))
     | "natural_join" => do
       let u ← tableOfJ (← j.get "u")
       let (ks, ko) := t.naturalKeys u
-      pure (resJ (t.innerJoinCur u ks ko))
+      pure (resJ (t.innerJoin u ks ko))
     | "cross_join" => do
       let u ← tableOfJ (← j.get "u")
       pure (resJ (pure (t.crossJoin u)))
     | "get_columns" =>
       pure (resJ (t.getColumns (← strsOfJ (← j.get "columns")) (← (← j.get "with_index").toBool)))
     | "row_indices" => do
-      let p ← predOfJ (← j.get "pred")
+      let cb ← callbackOfJ t j
       pure (exJ (fun l => .arr (l.map .bool))
-        (t.rowIndices p (← strsOfJ (← j.get "columns")) (← (← j.get "negate").toBool)))
+        (do t.rowIndices (← cb) (← strsOfJ (← j.get "columns")) (← (← j.get "negate").toBool)))
     | "count" => do
-      let p ← predOfJ (← j.get "pred")
-      pure (exJ (fun n => .num n) (t.count p (← strsOfJ (← j.get "columns"))))
+      let cb ← callbackOfJ t j
+      pure (exJ (fun n => .num n)
+        (do if nrows t.cols = 0 then pure 0 else t.count (← cb) (← strsOfJ (← j.get "columns"))))
     | "filtered_by_column" => do
       let p ← cpredOfJ (← j.get "cpred")
-      pure (resJ (pure (t.filteredByColumnCur p)))
+      pure (resJ (pure (t.filteredByColumn p)))
     | "getitem" => do
       let rows ← rowSelOfJ (← j.get "rows")
       let cs ← colSelOfJ (← j.get "cols")
       pure (resJ (do t.getItem rows (← cs.toNames t.header)))
     | "filtered" => do
-      let p ← predOfJ (← j.get "pred")
-      pure (resJ (t.filtered p (← strsOfJ (← j.get "columns"))))
+      let cb ← callbackOfJ t j
+      pure (resJ (do if nrows t.cols = 0 then pure t else t.filtered (← cb) (← strsOfJ (← j.get "columns"))))
     | "count_unique" => do
       pure (exJ (fun l => .arr (l.map fun (k, n) => .arr [.arr (k.map keyToJ), .num n]))
         (t.countUnique (← strsOfJ (← j.get "columns"))))
@@ -221,7 +267,7 @@ def handle (cmd : String) (j : J) : Except String J :=
       let nc ← match ← j.get "new" with
         | .null => pure none
         | x => do pure (some (← x.toStr))
-      pure (resJ (t.appendedCur nc others))
+      pure (resJ (t.appended nc others))
     | "transposed" => do
       let sel ← match ← j.get "select" with
         | .null => pure none
